@@ -49,6 +49,7 @@ class Eval:
         self._final_params = []
         self._cur_env = None
         self.loop_args = None     # optional: [element of the 1st for loop met, of the 2nd, ...] to specialise a loop body on one concrete element
+        self.breaks = None        # optional list: (path condition, environment) at every `break` met
         self._alias_root = None
         self.alias = {}           # local id bound by reference into another local -> (that local's id, path): in-place updates are written back
         self.effect_calls = None  # optional: short callee names whose calls are recorded in self.out as ('emit', name, args) with path conditions and loops
@@ -651,6 +652,8 @@ class Eval:
             self.effect(e, env, depth)
             return ("unit",)
         if k in ("Break", "Continue"):
+            if k == "Break" and self.breaks is not None:
+                self.breaks.append((tuple(x[:2] for x in self.conds if len(x) == 2 or True), dict(env)))
             return ("never",)
         if k == "Repeat":
             return ("repeat", self.expr(e["e"], env, depth))
